@@ -10,8 +10,34 @@ from pathlib import Path
 from xvengine import enga
 
 
-def run_stress(ctx, prop, kind, rng):
-    """kind: 'same-jobs' (C05) | 'token' (C08) | 'token-kill' (C09)"""
+def preemption_points():
+    """Statements of the token / lock code (first source line of every statement inside a function), for the
+    single-delay sweep: [(file suffix, stripped source line)]"""
+    import ast
+
+    from xvcore import REPO
+
+    pts = []
+    for rel in ("experimaestro/tokens.py", "experimaestro/locking.py"):
+        src = (Path(REPO) / "src" / rel).read_text()
+        lines = src.splitlines()
+        tree = ast.parse(src)
+        seen = set()
+        for fn in ast.walk(tree):
+            if isinstance(fn, (ast.FunctionDef, ast.AsyncFunctionDef)):
+                for node in ast.walk(fn):
+                    if isinstance(node, ast.stmt) and not isinstance(node, (ast.FunctionDef, ast.AsyncFunctionDef, ast.ClassDef)):
+                        if isinstance(node, ast.Expr) and isinstance(getattr(node, "value", None), ast.Constant) and isinstance(node.value.value, str):
+                            continue  # docstring
+                        text = lines[node.lineno - 1].strip()
+                        if text and (rel, text) not in seen and "logger." not in text and "logging." not in text:
+                            seen.add((rel, text))
+                            pts.append((rel, text))
+    return pts
+
+
+def run_stress(ctx, prop, kind, rng, delay_at=None):
+    """kind: 'same-jobs' (C05) | 'token' (C08) | 'token-kill' (C09); delay_at: (file, statement) of a directed preemption"""
     case = enga.Case(ctx.scratch / f"a{rng.randrange(10**9)}")
     w = {"kind": kind}
     try:
@@ -43,7 +69,14 @@ def run_stress(ctx, prop, kind, rng):
         w["plans"] = [{"name": p["name"], "jobs": p["jobs"]} for p in plans]
         w["total"] = total
         extra = {"XV_LOGLEVEL": "INFO"}
-        if rng.random() < 0.5:
+        if delay_at is not None:
+            # single-delay sweep: every execution of one statement of the token / lock code is delayed, in every scheduler
+            ms = rng.choice([20, 60, 150])
+            extra["VERIF_DELAY_AT"] = f"{delay_at[0]}::{delay_at[1]}::{ms}"
+            w["delay_at"] = [delay_at[0], delay_at[1], ms]
+            ctx.count("enga_runs_with_directed_delay")
+            ctx.distinct([delay_at[0], delay_at[1]], "distinct_delayed_statements")
+        elif rng.random() < 0.5:
             # preemption injection in the token / lock / file-watcher code of every scheduler process
             extra["VERIF_DELAY"] = f"{rng.randrange(10**6)}:{rng.choice([0.02, 0.05, 0.15])}:{rng.choice([1, 3, 8])}:{case.base / 'delays.log'}"
             w["delay"] = extra["VERIF_DELAY"].rsplit(":", 1)[0]
